@@ -106,6 +106,12 @@ type env struct {
 	seen     map[string]bool
 	hit      bool
 	ran      bool
+	// queryMayWrite: the routine's zero-size quick return precedes its workspace
+	// query and legitimately writes operands.
+	queryMayWrite bool
+	// tag is appended to the keys of valid-call failures (a degenerate sub-domain
+	// of a routine that is reported separately).
+	tag string
 	res      vk.Result
 }
 
